@@ -68,16 +68,16 @@ PROPS = {
     "C09": {"seed": 9, "areas": [("syncloop", 144), ("crash", 40), ("receiver", 120)], "thorough_mult": 6,
             "assumptions": ["known finding F8 (C09_refuted)", "Store failures below the retry budget (StorageRetryCount) are retried; exhausting it makes the loop return (the process restarts and uploads at start-up)"],
             "trusted_base": [LMDB_TRUST, "Instance/Ids.v + Instance/SyncLoop.v as for C03"]},
-    "C01": {"seed": 1, "areas": [("fleet", 160), ("merge", 300), ("syncloop", 60), ("shadow", 200)], "thorough_mult": 6,
+    "C01": {"seed": 1, "areas": [("fleet", 160), ("merge", 300), ("syncloop", 60), ("shadow", 200), ("retention", 60)], "thorough_mult": 6,
             "assumptions": ["tomb sweeper disabled (cutoff 0), as the property states",
                             "applications are monotone per key per instance (a write is at least as new as what the instance holds); in shadow mode instances share one monotone clock (documented operating assumption)",
                             "quiescent = every instance uploaded after its last write and merged such a snapshot of every instance; C09 supplies the first half on the real loop",
                             "the refinement from LoadOnce/SendOnce to the Fleet steps is proved per DBI (C01_refine_load / C01_refine_send) and validated end to end on real fleets by the correspondence (native mode) and the convergence oracle (both modes)"],
             "trusted_base": [LMDB_TRUST, "modelled: Fleet (logical stores), the per-DBI refinement of strategy.Update + NativeIterator.Merge, dump entries"]},
-    "C04": {"seed": 4, "areas": [("fleet", 120), ("merge", 300), ("retention", 60), ("instance", 300)], "thorough_mult": 6,
+    "C04": {"seed": 4, "areas": [("fleet", 120), ("merge", 300), ("retention", 60), ("instance", 300), ("sweeper", 150)], "thorough_mult": 6,
             "assumptions": ["retention part (C04_retention.v): 0 <= RetentionDuration() < 2^63 ns, clock values in 1970..2262; RetentionDuration() (a float32 product) is an input computed by Go; negative / overflowing retention_days is outside the claim (the configuration is not validated by /repo)"],
             "trusted_base": [LMDB_TRUST, "modelled: NativeIterator.Merge stale-marker rule, Retention arithmetic, Fleet joins, capture/dump theorems of C11/C06"]},
-    "C05": {"seed": 5, "areas": [("crash", 60), ("cleaner", 150)], "thorough_mult": 5,
+    "C05": {"seed": 5, "areas": [("crash", 60), ("cleaner", 150), ("names", 300)], "thorough_mult": 5,
             "assumptions": ["tomb sweeper disabled (the property excepts markers past retention)",
                             "snapshots are decodable (corrupt blobs: C08/C16); sequence numbers = global upload order (names sort chronologically: C15; clocks of different instances are assumed not to run backwards relative to each other by more than the cleaner's intervals, as the cleaner itself assumes)",
                             "the model's guards are those of the code: Upload only when the own instance is not waited for (syncLoop), cleaner rules (C12 theorems + cleaner correspondence area); the real event logs are replayed against an executable transcription of the guards (Corr/Run_crash.v)"],
